@@ -346,6 +346,36 @@ async fn run_async(c: &Case) -> Verdict {
             }
         }
     }
+    // Upper bound on the number of rounds the lookup ran (its budget is MAX_ITERATIONS = 20 rounds of up to ALPHA
+    // requests): a round ends only when each of its requests was answered or timed out, so between two rounds a
+    // reply is delivered to the requester unless a whole round went unanswered:  rounds <= bursts + unanswered,
+    // a burst being a maximal run of the requester's FIND_NODE frames with no reply delivered in between.
+    let mut bursts = 0usize;
+    let mut in_burst = false;
+    let mut answered_in_time: HashSet<String> = HashSet::new();
+    for e in &trace {
+        match e {
+            Ev::Frame { from, dht: Some(d), .. } if *from == me.tid && d.is_request && d.op == "FindNode" => {
+                if !in_burst {
+                    bursts += 1;
+                    in_burst = true;
+                }
+            }
+            Ev::Deliver { t, to, dht: Some(d), .. } if *to == me.tid && !d.is_request && my_requests.contains(&d.message_id) => {
+                in_burst = false;
+                let age = t.saturating_sub(*sent_at.get(&d.message_id).unwrap_or(&Duration::ZERO));
+                if age + Duration::from_millis(5) < T_REQ {
+                    answered_in_time.insert(d.message_id.clone());
+                }
+            }
+            _ => {}
+        }
+    }
+    let rounds_upper = bursts + my_requests.iter().filter(|m| !answered_in_time.contains(*m)).count();
+    let budget_may_be_spent = rounds_upper >= 20;
+    if budget_may_be_spent {
+        v.class("round_budget_possibly_spent");
+    }
     // (a) bounded
     v.check(frames_from_me <= 1000, &format!("{ID}/{site}/more-than-1000-request-frames"), || format!("{frames_from_me} frames"));
     // (e) at most one FIND_NODE per destination node
@@ -398,6 +428,11 @@ async fn run_async(c: &Case) -> Verdict {
                     continue;
                 }
                 let tried = attempts.contains(idn) || dials.contains(idn);
+                if !tried && budget_may_be_spent {
+                    // "the number of requests is bounded whatever peers reply": after 20 rounds the lookup may stop
+                    v.class("closer_peer_unqueried_after_20_rounds");
+                    break;
+                }
                 if !tried {
                     v.fail(format!("{ID}/{site}/closer-learned-peer-left-unqueried"), format!("{idn} at distance {}… is closer than the farthest returned node ({}) but was never contacted; result {} of k={k}", hex::encode(&dist[..3]), far.map(|f| hex::encode(&f[..3])).unwrap_or_else(|| "n/a".into()), result.len()));
                     break;
@@ -464,12 +499,12 @@ pub fn case(max_n: u8) -> impl Strategy<Value = Case> {
 
 pub fn run(run: &Run) {
     run.assume("QUIC is replaced by an in-memory hub below TransportHandle::send_message / above its receive dispatcher; framing, peer tables, pending tables, DHT manager and core engine are the shipped code");
-    run.assume("virtual time (tokio paused clock): delivery order and timeouts are a function of the seed; liars name at most 12 distinct fabricated ids so the documented budget (α=3 × 20 rounds) can satisfy the completeness clause");
+    run.assume("virtual time (tokio paused clock): delivery order and timeouts are a function of the seed; liars name at most 12 distinct fabricated ids so the documented budget (α=3 × 20 rounds) can satisfy the completeness clause; a lookup that may have used all 20 rounds (rounds ≤ request bursts + unanswered requests, from the trace) is excused from the completeness clause only - 'the number of requests is bounded whatever peers reply' - and counted as class round_budget_possibly_spent");
     run.assume("with distinct application-level ids the local node's own key is ambiguous, so only the id-agnostic clauses (no self request, no double query, bounded) are asserted there");
     run.set_rule("lookup", "N real nodes (2..=24, thorough ..=60) in mesh/ring/line/star/tree/two-cliques/G(n,p), random ids, key random / a node's key / near the requester, K∈{0,1,2,3,8,16,20}, per-peer faults (silent, dead, slow below/above the timeout), lying stub peers naming unknown, real, requester, self ids and forged distances; non-trivial = ≥2 query rounds or a faulty/lying peer; distinct by case hash");
     run.max_shrink.store(150, std::sync::atomic::Ordering::Relaxed);
     let sh = shards_for(run.tier);
-    run.prop_f("lookup", run.tier.pick(800, 12000), sh, || case(24), run_case);
+    run.prop_f("lookup", run.tier.pick(4800, 48000), sh, || case(24), run_case);
     if run.tier == Tier::Thorough {
         run.prop_f("lookup", 300, sh, || case(60), run_case);
     }
